@@ -37,9 +37,13 @@ class Ctx:
         self.nontrivial = set()
         self.samples = []
         self.notes = collections.Counter()
+        self.log = hashlib.sha256()   # event log of the case: every run's normalised trace, ending and output
 
     def count_run(self, res):
         self.runs += 1
+        self.log.update(res.trace_digest().encode())
+        self.log.update(("|%s|%s|" % (res.mode, res.status)).encode())
+        self.log.update(res.norm_output().encode())
         self.ops += len(res.ops)
         for k, v in res.fired_counts().items():
             self.fired[k] += v
@@ -49,7 +53,7 @@ class Ctx:
     def export(self):
         return {"runs": self.runs, "ops": self.ops, "fired": dict(self.fired), "sites": sorted(self.sites),
                 "states": dict(self.states), "probes": dict(self.probes), "nontrivial": sorted(self.nontrivial),
-                "samples": self.samples[:2], "notes": dict(self.notes)}
+                "samples": self.samples[:2], "notes": dict(self.notes), "log": self.log.hexdigest()}
 
 
 def load_prop(pid):
@@ -76,7 +80,9 @@ def _worker(args):
         if per[v["signature"]] <= 2:
             kept.append(v)
     counts = dict(per)
-    return idx, kept, counts, ctx.export(), err
+    st = ctx.export()
+    st["verdict"] = sorted(counts.items())
+    return idx, kept, counts, st, err
 
 
 def load_known():
@@ -164,7 +170,7 @@ def write_evidence(pid, mod, tier, seed, wall, agg, n_cases, n_done, viol_total,
     os.replace(tmp, path)
 
 
-def run_check(pid, tier, seed, workers, deadline_s=None, n_override=None, do_shrink=True):
+def run_check(pid, tier, seed, workers, deadline_s=None, n_override=None, do_shrink=True, dump=None):
     t0 = time.monotonic()
     try:
         core.build()
@@ -198,6 +204,8 @@ def run_check(pid, tier, seed, workers, deadline_s=None, n_override=None, do_shr
         for idx, viols, counts, st, err in it:
             done += 1
             results[idx] = (viols, counts)
+            if dump is not None:
+                dump[idx] = (st["log"], st["verdict"], err)
             if err:
                 errors.append("case %d: %s" % (idx, err))
             agg["runs"] += st["runs"]
@@ -255,6 +263,10 @@ def run_check(pid, tier, seed, workers, deadline_s=None, n_override=None, do_shr
             print("HARNESS-ERROR: %s" % e.strip().split("\n")[-1])
         if rc == 0:
             rc = 2
+    if dump is not None:
+        with open(dump.pop("__path__"), "w") as f:
+            for i in sorted(dump):
+                f.write("%d\t%s\t%s\t%s\n" % (i, dump[i][0], dump[i][1], (dump[i][2] or "").replace("\n", " ")[:200]))
     wall = time.monotonic() - t0
     write_evidence(pid, mod, tier, seed, wall, agg, n_cases, done, total, unlisted, known_hit, errors, truncated)
     print("%s: cases=%d/%d runs=%d ops=%d violations=%d unlisted_signatures=%d known=%d wall=%.1fs"
